@@ -239,4 +239,156 @@ theorem iter4_ofRows {cp gid : Nat → Nat} {n : Nat} {segs : List Seg} {rows : 
     have happ := pairsFrom_append cp gid s.startIx (s.endIx + 1) n (by have := hs2.le; omega) hs3.le
     rw [this, ← List.append_assoc, happ, hs1]
 
+/-! ## any well-formed format-4 table: the iterator and the lookup agree -/
+
+/-- start / end code arrays as total functions -/
+def sCode (t : Cmap4) (i : Nat) : Nat := (t.startCode[i]?).getD 0
+def eCode (t : Cmap4) (i : Nat) : Nat := (t.endCode[i]?).getD 0
+
+/-- segment arrays of equal length holding ascending, disjoint, 16-bit ranges -/
+structure Wf4 (t : Cmap4) : Prop where
+  size : t.endCode.size = t.startCode.size
+  sorted : RangesSorted (sCode t) (eCode t) t.startCode.size
+  u16 : ∀ i, i < t.startCode.size → eCode t i ≤ 0xFFFF
+
+theorem mem_iter4Seg (t : Cmap4) (ix lo hi c g : Nat) :
+    (c, g) ∈ iter4Seg t ix lo hi ↔
+      lo ≤ c ∧ c < hi ∧ lookupGlyphId t (c % 65536) ix (lo % 65536) = some g := by
+  unfold iter4Seg
+  simp only [List.mem_filterMap, List.mem_range'_1, Option.map_eq_some_iff, Prod.mk.injEq]
+  constructor
+  · rintro ⟨a, ⟨h1, h2⟩, b, hb, rfl, rfl⟩
+    exact ⟨h1, by omega, hb⟩
+  · rintro ⟨h1, h2, h3⟩
+    exact ⟨c, ⟨h1, by omega⟩, g, h3, rfl, rfl⟩
+
+theorem wf4_codeRange (t : Cmap4) (hw : Wf4 t) (i : Nat) :
+    codeRange t i = if i < t.startCode.size then some (sCode t i, eCode t i + 1) else none := by
+  unfold codeRange sCode eCode
+  by_cases h : i < t.startCode.size
+  · have h' : i < t.endCode.size := by rw [hw.size]; exact h
+    simp [h, h']
+  · have h1 : t.startCode[i]? = none := by simp only [Array.getElem?_eq_none_iff]; omega
+    simp [h, h1]
+
+theorem mem_iter4From (t : Cmap4) (hw : Wf4 t) (c g : Nat) :
+    ∀ fuel ix curEnd, t.startCode.size - ix ≤ fuel → (ix < t.startCode.size → curEnd ≤ sCode t ix) →
+      ((c, g) ∈ iter4From t fuel ix curEnd ↔
+        ∃ i, ix ≤ i ∧ i < t.startCode.size ∧ sCode t i ≤ c ∧ c ≤ eCode t i ∧
+          lookupGlyphId t c i (sCode t i) = some g) := by
+  intro fuel
+  induction fuel with
+  | zero =>
+    intro ix curEnd hf _
+    simp only [iter4From, List.not_mem_nil, false_iff]
+    rintro ⟨i, h1, h2, _⟩
+    omega
+  | succ f ih =>
+    intro ix curEnd hf hcur
+    unfold iter4From
+    rw [wf4_codeRange t hw]
+    by_cases hix : ix < t.startCode.size
+    · simp only [hix, if_true]
+      have hle := hw.sorted.le ix hix
+      have hu := hw.u16 ix hix
+      have hc := hcur hix
+      have e1 : max (sCode t ix) curEnd = sCode t ix := by omega
+      have e2 : max (eCode t ix + 1) curEnd = eCode t ix + 1 := by omega
+      rw [e1, e2, List.mem_append, mem_iter4Seg,
+        ih (ix + 1) (eCode t ix + 1) (by omega) (fun h => by
+          have := hw.sorted.lt ix (ix + 1) (by omega) h; omega)]
+      constructor
+      · rintro (⟨h1, h2, h3⟩ | ⟨i, h1, h2, h3⟩)
+        · have m1 : c % 65536 = c := by omega
+          have m2 : sCode t ix % 65536 = sCode t ix := by omega
+          rw [m1, m2] at h3
+          exact ⟨ix, Nat.le_refl _, hix, h1, by omega, h3⟩
+        · exact ⟨i, by omega, h2, h3⟩
+      · rintro ⟨i, h1, h2, h3, h4, h5⟩
+        by_cases hi : i = ix
+        · subst hi
+          left
+          have m1 : c % 65536 = c := by omega
+          have m2 : sCode t i % 65536 = sCode t i := by omega
+          rw [m1, m2]
+          exact ⟨h3, by omega, h5⟩
+        · right
+          exact ⟨i, by omega, h2, h3, h4, h5⟩
+    · simp only [hix, if_false, List.not_mem_nil, false_iff]
+      rintro ⟨i, h1, h2, _⟩
+      omega
+
+/-- For every well-formed format-4 table (not only those write-fonts builds): `Cmap4::iter()` yields
+`(c, g)` exactly when `Cmap4::map_codepoint(c)` returns `g` -/
+theorem iter4_mem_iff_map4 (t : Cmap4) (hw : Wf4 t) (c g : Nat) :
+    (c, g) ∈ iter4 t ↔ map4 t c = some g := by
+  have hs : ∀ i, i < t.startCode.size → (fun i => t.startCode[i]?) i = some (sCode t i) := by
+    intro i hi; simp [sCode, hi]
+  have he : ∀ i, i < t.startCode.size → (fun i => t.endCode[i]?) i = some (eCode t i) := by
+    intro i hi
+    have : i < t.endCode.size := by rw [hw.size]; exact hi
+    simp [eCode, this]
+  -- the iterator, as a set
+  have hiter : (c, g) ∈ iter4 t ↔ ∃ i, i < t.startCode.size ∧ sCode t i ≤ c ∧ c ≤ eCode t i ∧
+      lookupGlyphId t c i (sCode t i) = some g := by
+    unfold iter4
+    rw [wf4_codeRange t hw]
+    by_cases h0 : 0 < t.startCode.size
+    · simp only [h0, if_true]
+      have hu := hw.u16 0 h0
+      have hle := hw.sorted.le 0 h0
+      rw [List.mem_append, mem_iter4Seg, mem_iter4From t hw c g _ 1 (eCode t 0 + 1) (by omega)
+        (fun h => by have := hw.sorted.lt 0 1 (by omega) h; omega)]
+      constructor
+      · rintro (⟨h1, h2, h3⟩ | ⟨i, h1, h2, h3⟩)
+        · have m1 : c % 65536 = c := by omega
+          have m2 : sCode t 0 % 65536 = sCode t 0 := by omega
+          rw [m1, m2] at h3
+          exact ⟨0, h0, h1, by omega, h3⟩
+        · exact ⟨i, h2, h3⟩
+      · rintro ⟨i, h2, h3, h4, h5⟩
+        by_cases hi : i = 0
+        · subst hi
+          left
+          have m1 : c % 65536 = c := by omega
+          have m2 : sCode t 0 % 65536 = sCode t 0 := by omega
+          rw [m1, m2]
+          exact ⟨h3, by omega, h5⟩
+        · right
+          exact ⟨i, by omega, h2, h3, h4, h5⟩
+    · simp only [h0, if_false, List.not_mem_nil, false_iff]
+      rintro ⟨i, h1, _⟩
+      omega
+  rw [hiter]
+  unfold map4 map4With
+  rw [hw.size]
+  by_cases hex : ∃ i, i < t.startCode.size ∧ sCode t i ≤ c ∧ c ≤ eCode t i
+  · obtain ⟨i, hi, h1, h2⟩ := hex
+    have hu := hw.u16 i hi
+    have hnot : ¬ (c > 0xFFFF) := by omega
+    rw [if_neg hnot, segSearch_found _ _ (sCode t) (eCode t) _ c i hs he hw.sorted hi h1 h2]
+    simp only [hs i hi]
+    constructor
+    · rintro ⟨j, hj, j1, j2, j3⟩
+      have : j = i := by
+        rcases Nat.lt_trichotomy j i with h | h | h
+        · have := hw.sorted.lt j i h hi; omega
+        · exact h
+        · have := hw.sorted.lt i j h hj; omega
+      subst this
+      exact j3
+    · intro h
+      exact ⟨i, hi, h1, h2, h⟩
+  · have hno : ∀ i, i < t.startCode.size → ¬ (sCode t i ≤ c ∧ c ≤ eCode t i) :=
+      fun i hi h => hex ⟨i, hi, h.1, h.2⟩
+    constructor
+    · rintro ⟨i, hi, h1, h2, _⟩
+      exact absurd ⟨h1, h2⟩ (hno i hi)
+    · intro h
+      exfalso
+      by_cases hbig : c > 0xFFFF
+      · rw [if_pos hbig] at h; cases h
+      · rw [if_neg hbig, segSearch_none _ _ (sCode t) (eCode t) _ c hs he hw.sorted hno] at h
+        cases h
+
 end FontVerif.Cmap
